@@ -154,9 +154,10 @@ Fixpoint mem_store_row (f2i : list (name * Z)) (row : list Z) (ridx : Z)
   end.
 
 (* the row loop `for ridx in range(lo, hi)`: `fuel` iterations from `ridx`.
-   `handle` is the currently open memory map, `disk` what np.load returns when
-   the file is re-opened, `opens` the number of np.load calls so far. *)
-Fixpoint mem_loop (fuel : nat) (ridx bs : Z) (disk handle : list (list Z))
+   `handle` is the currently open memory map, `disk k` what the k-th np.load of
+   the file returns (the content on disk may differ between opens), `opens` the
+   number of np.load calls so far: a re-open makes the (opens+1)-th load current. *)
+Fixpoint mem_loop (fuel : nat) (ridx bs : Z) (disk : Z -> list (list Z)) (handle : list (list Z))
          (f2i : list (name * Z)) (data : list mcol) (opens : Z)
   : res (list mcol * Z) :=
   match fuel with
@@ -166,7 +167,7 @@ Fixpoint mem_loop (fuel : nat) (ridx bs : Z) (disk handle : list (list Z))
       do data' <- mem_store_row f2i row ridx data;
       if bs =? 0 then Err ZeroDivision else
       if mem_reopen ridx bs
-      then mem_loop fuel' (ridx + 1) bs disk disk f2i data' (opens + 1)
+      then mem_loop fuel' (ridx + 1) bs disk (disk (opens + 1)) f2i data' (opens + 1)
       else mem_loop fuel' (ridx + 1) bs disk handle f2i data' opens
   end.
 
@@ -186,15 +187,20 @@ Fixpoint freeze (data : list mcol) : res table :=
       do c <- freeze_cells cells; do t <- freeze rest; Ok ((fname, (dt, c)) :: t)
   end.
 
-Definition load_file_mem_bs (bs : Z) (f : file) (o : lopts) : res (table * Z) :=
-  let n_rows := zlen (f_rows f) in
-  let data := mem_alloc (f_schema f) n_rows o in
+(* the loader on a file whose content at the k-th open is `ver k` (schema fixed) *)
+Definition load_file_mem_ver (bs : Z) (sch : list (name * dtype)) (ver : Z -> list (list Z))
+           (o : lopts) : res (table * Z) :=
+  let n_rows := zlen (ver 1) in
+  let data := mem_alloc sch n_rows o in
   let lo := mem_range_lo in
   let hi := mem_range_hi n_rows in
-  do r <- mem_loop (Z.to_nat (hi - lo)) lo bs (f_rows f) (f_rows f)
-                   (fname_to_fidx (f_schema f)) data 1;
+  do r <- mem_loop (Z.to_nat (hi - lo)) lo bs ver (ver 1) (fname_to_fidx sch) data 1;
   do t <- freeze (fst r);
   Ok (t, snd r).
+
+(* a file that does not change while it is loaded *)
+Definition load_file_mem_bs (bs : Z) (f : file) (o : lopts) : res (table * Z) :=
+  load_file_mem_ver bs (f_schema f) (fun _ => f_rows f) o.
 
 Definition load_file_mem (f : file) (o : lopts) : res (table * Z) :=
   load_file_mem_bs mem_bs f o.
@@ -243,13 +249,20 @@ Definition load_all (load_one : option file -> res (table * Z))
             (map (fun k => lo + Z.of_nat k) (seq 0 (Z.to_nat (hi - lo))))
             (Ok r0).
 
+(* `if efficiency_mode is None: efficiency_mode = 'time'` (regenerated: is the default the time mode?) *)
+Definition resolve_mode (mode : effmode) : effmode :=
+  match mode with
+  | MNone => if mode_default_time then MTime else MMemory
+  | m => m
+  end.
+
 Definition npy_load (mode : effmode) (files : list (option file)) (o : lopts)
   : res (table * Z) :=
-  match mode with
+  match resolve_mode mode with
   | MBad => Err ValueError
   | _ =>
       let one := fun p => do f <- open_file p;
-                          match mode with
+                          match resolve_mode mode with
                           | MMemory => load_file_mem f o
                           | _ => load_file_time f o
                           end in
@@ -381,10 +394,22 @@ Definition file_load (fm : fmt) (mode : effmode) (files : list (option file)) (o
   | FParquet => pq_load files o
   end.
 
-(* which stage table a step uses: the regenerated `*_table` kernels are the
-   identity on the local variable `datafields` (token 0 = the merged table) *)
-Definition pick_table (ds : dataset) (token : Z) : stage_table :=
-  if token =? 0 then dict_merge (d_cfg_fields ds) (d_ds_fields ds) else d_cfg_fields ds.
+(* which stage table a step uses.  The regenerated `*_merge` kernels give the
+   ORDER in which the two tables are merged by `{**a, **b}` (token 1 = the
+   configuration's cfg['datafields'], token 2 = Dataset.datafields; a later table
+   overrides an earlier one); the regenerated `*_table` kernels are the identity on
+   the local variable `datafields` holding that merge (token 0). *)
+Definition table_of (ds : dataset) (tok : Z) : stage_table :=
+  if tok =? 1 then d_cfg_fields ds else if tok =? 2 then d_ds_fields ds else [].
+
+Definition merge_order (ds : dataset) (order : list Z) : stage_table :=
+  match order with
+  | [] => []
+  | a :: r => fold_left (fun acc tok => dict_merge acc (table_of ds tok)) r (table_of ds a)
+  end.
+
+Definition pick_table (ds : dataset) (order : list Z) (token : Z) : stage_table :=
+  if token =? 0 then merge_order ds order else d_cfg_fields ds.
 
 Definition exc_orig (o : dopts) (ren : list (name * name)) : list name :=
   match do_exc o with Some l => conv_new2orig l ren | None => [] end.
@@ -400,18 +425,18 @@ Definition load_part (ds : dataset) (o : dopts) (files : list (option file))
 
 Definition keep_exp (ds : dataset) (o : dopts) : list name :=
   dedup (conv_new2orig
-           (get_joint_names (pick_table ds (ld_exp_table 0))
+           (get_joint_names (pick_table ds (ld_merge 1 2) (ld_exp_table 0))
                             (ld_exp_stages st_prep_exp st_ana_exp) ++ do_keep o)
            (d_exp_ren ds)).
 
 Definition keep_mc (ds : dataset) (o : dopts) : list name :=
   dedup (conv_new2orig
-           (get_joint_names (pick_table ds (ld_mc_table_e 0))
+           (get_joint_names (pick_table ds (ld_merge 1 2) (ld_mc_table_e 0))
                             (ld_mc_stages_e st_prep_exp st_ana_exp) ++ do_keep o)
            (d_exp_ren ds)
          ++
          conv_new2orig
-           (get_joint_names (pick_table ds (ld_mc_table_m 0))
+           (get_joint_names (pick_table ds (ld_merge 1 2) (ld_mc_table_m 0))
                             (ld_mc_stages_m st_prep_exp st_ana_exp st_prep_mc st_ana_mc)
             ++ do_keep o)
            (d_mc_ren ds)).
@@ -429,14 +454,14 @@ Definition assert_data_format (ds : dataset) (d : dsdata) : res unit :=
   do _ <- match dd_exp d with
           | Some t =>
               if fmt_exp_bad (zlen (missing_keys (tnames t)
-                    (get_joint_names (pick_table ds (fmt_exp_table 0)) (fmt_exp_stages st_ana_exp))))
+                    (get_joint_names (pick_table ds (fmt_merge 1 2) (fmt_exp_table 0)) (fmt_exp_stages st_ana_exp))))
               then Err KeyError else Ok tt
           | None => Ok tt
           end;
   do _ <- match dd_mc d with
           | Some t =>
               if fmt_mc_bad (zlen (missing_keys (tnames t)
-                    (get_joint_names (pick_table ds (fmt_mc_table 0))
+                    (get_joint_names (pick_table ds (fmt_merge 1 2) (fmt_mc_table 0))
                                      (fmt_mc_stages st_ana_exp st_ana_mc))))
               then Err KeyError else Ok tt
           | None => Ok tt
@@ -450,10 +475,10 @@ Definition load_and_prepare (ds : dataset) (o : dopts) (prep : dsdata -> res dsd
   do d0 <- load_data ds o;
   do d <- prep d0;
   let e := option_map (fun t => tidy_up t
-             (get_joint_names (pick_table ds (tidy_exp_table 0)) (tidy_exp_stages st_ana_exp)
+             (get_joint_names (pick_table ds (lap_merge 1 2) (tidy_exp_table 0)) (tidy_exp_stages st_ana_exp)
               ++ do_keep o)) (dd_exp d) in
   let m := option_map (fun t => tidy_up t
-             (get_joint_names (pick_table ds (tidy_mc_table 0)) (tidy_mc_stages st_ana_exp st_ana_mc)
+             (get_joint_names (pick_table ds (lap_merge 1 2) (tidy_mc_table 0)) (tidy_mc_stages st_ana_exp st_ana_mc)
               ++ do_keep o)) (dd_mc d) in
   let d' := mkData e m (dd_livetime d) in
   do _ <- assert_data_format ds d';
